@@ -302,7 +302,8 @@ class CmpTranslator(xp.XpTranslator):
 
         lines, captured = make_body(brk)
         ret_lean = lean_type(self.ret)
-        exit_ty = ("(%s ⊕ %s)" % (ret_lean, exp_lean)) if has_ret and has_brk else (ret_lean if has_ret else exp_lean)
+        par = lambda t: t if " " not in t or t.startswith("(") else "(%s)" % t
+        exit_ty = ("(%s ⊕ %s)" % (par(ret_lean), par(exp_lean))) if has_ret and has_brk else par(ret_lean if has_ret else exp_lean)
         cap_names = sorted(captured, key=lambda n: (n[0], int(n[1:]) if n[1:].isdigit() else -1))
         params = "".join(" (%s : %s)" % (n, lean_type(captured[n])) for n in cap_names)
         res_ty = ("(Ctl %s %s)" % (exit_ty, st_ty)) if ctl else st_ty
@@ -492,3 +493,259 @@ def restore_baseline():
     if os.path.exists(BASELINE):
         return base.write_if_changed(OUT, open(BASELINE, encoding="utf-8").read())
     return False
+
+
+# ----------------------------------------------------------------------------------------------
+# self-test of the constructs this translator adds: small functions are translated, evaluated by Lean (`#eval`) and
+# compared with CPython on the same arguments (development tool, `--selftest`)
+# ----------------------------------------------------------------------------------------------
+SELFTEST_SRC = r"""
+def t_nested(rows, stop):
+    total = 0
+    seen = []
+    for i, row in enumerate(rows):
+        cells = row.split(",")
+        for j, cell in enumerate(reversed(cells)):
+            if not cell:
+                return i + 1
+            if cell == stop:
+                break
+            if cell == "skip":
+                continue
+            total += j
+            seen.append(row + ":" + cell)
+        else:
+            total += 100
+        total += 1000
+    return total + len(seen)
+
+def t_outer_elem(words, letters):
+    out = []
+    for w in words:
+        for ch in letters:
+            if ch in w:
+                out.append(w + ch)
+                break
+        else:
+            out.append("-" + w)
+    return out
+
+def t_break_exports(rows):
+    acc = ""
+    for row in rows:
+        found = "none"
+        for k, cell in enumerate(row.split(";")):
+            if cell.lower() == "x":
+                found = cell
+                pos = k
+                break
+        else:
+            pos = -1
+        acc += found + str(pos) + "|"
+        if pos == 2:
+            break
+    return acc
+
+def t_arg(x, arg):
+    if isinstance(arg, str):
+        arg = [arg]
+    if not isinstance(arg, (tuple, list)):
+        raise TypeError("bad")
+    n = 0
+    for a in reversed(arg):
+        if a == x:
+            return n
+        n += 1
+    return -1
+
+def t_index(xs, ks):
+    got = []
+    for k in ks:
+        for j, c in enumerate(k):
+            if j >= len(xs):
+                break
+            if c != "*" and c.lower() != xs[-1 - j].lower():
+                got.append(k + "!")
+                break
+        else:
+            got.append(k)
+    return got
+
+def t_raise_inner(xs, n):
+    for x in xs:
+        for j, c in enumerate(x):
+            if xs[j + n] == c:
+                return x
+    return ""
+"""
+
+SELFTEST_CASES = [
+    ("t_nested", {"rows": ("list", "str"), "stop": "str"}, "int",
+     [(["a,b,c", "d"], "q"), (["a,b,c", "d,S,e", "f"], "S"), (["a,b", "c,,d", "e"], "S"), ([], "S"), (["skip,a,skip", "S"], "S"), (["", "a"], "S"), (["a", ","], "S")]),
+    ("t_outer_elem", {"words": ("list", "str"), "letters": "str"}, xp.t_list("str"),
+     [(["abc", "xyz", "b"], "bz"), ([], "a"), (["abc"], ""), (["q", "ab"], "a")]),
+    ("t_break_exports", {"rows": ("list", "str")}, "str",
+     [(["a;X;b", "c;d", "x", "a;b;X", "x"],), ([],), (["", ";;x", "x"],)]),
+    ("t_arg", {"x": "str", "arg": "str"}, "int", [("a", "a"), ("a", "b"), ("", "")]),
+    ("t_arg", {"x": "str", "arg": "SEQ"}, "int", [("a", ["a", "b", "a"]), ("b", ["a", "b", "c"]), ("z", ["a"]), ("a", [])]),
+    ("t_index", {"xs": ("list", "str"), "ks": ("list", "str")}, xp.t_list("str"),
+     [(["A", "b", "C"], ["c", "cb", "c*a", "cba", "cbaa", "x", "", "*", "Cx"]), ([], ["a", ""]), (["a"], [])]),
+    ("t_raise_inner", {"xs": ("list", "str"), "n": "int"}, "str",
+     [(["ab", "b"], 0), (["ab", "b"], 1), (["abc"], 0), ([], 3), (["a", "a"], -1), (["zz", "q"], -5)]),
+]
+
+
+def selftest():
+    import subprocess
+    import tempfile
+
+    tree = ast.parse(SELFTEST_SRC)
+    ns = {}
+    exec(compile(tree, "<selftest>", "exec"), ns)
+    parts = [PRELUDE.replace("N0.Gen.XPathMatch", "N0.Gen.CmpSelfTest"), xp.SELFTEST_ENC]
+    expected = []
+    for n, (name, spec, ret, cases) in enumerate(SELFTEST_CASES):
+        spec = {k: (t_seq("str") if v == "SEQ" else v) for k, v in spec.items()}
+        lean_name = "%s_%d" % (name, n)
+        tr_ = CmpTranslator(base.find_function(tree, name), lean_name, spec, ret, {}, {}, module=tree)
+        parts.append(tr_.translate() + "\n")
+        for args in cases:
+            try:
+                # a tuple argument for the SEQ specialisation every second time (the translated code must not care)
+                pyargs = [tuple(a) if isinstance(a, list) and "SEQ" in SELFTEST_CASES[n][1].values() and len(a) % 2 else a for a in args]
+                want = "ok " + xp._enc(ns[name](*pyargs))
+            except Exception as e:  # noqa
+                want = "err " + type(e).__name__
+            expected.append((lean_name, args, want))
+            parts.append("#eval showR (%s %s)" % (lean_name, " ".join(xp._lean_arg(a) for a in args)))
+    parts.append("end N0.Gen.CmpSelfTest\n")
+    with tempfile.NamedTemporaryFile("w", suffix=".lean", delete=False, encoding="utf-8") as f:
+        f.write("\n".join(parts))
+        path = f.name
+    p = subprocess.run(["lake", "env", "lean", path], cwd=os.path.join(HERE, "lean"), stdout=subprocess.PIPE, stderr=subprocess.STDOUT, text=True)
+    got = [l.strip().strip('"') for l in p.stdout.split("\n") if l.strip().startswith('"')]
+    if p.returncode != 0 or len(got) != len(expected):
+        print(p.stdout[-3000:])
+        print("selftest: Lean did not evaluate the translated functions (%d answers for %d cases); file %s" % (len(got), len(expected), path))
+        return 1
+    bad = 0
+    for (name, args, want), g in zip(expected, got):
+        if want != g:
+            bad += 1
+            print("selftest MISMATCH %s%r: python %s, lean %s" % (name, args, want, g))
+    print("selftest: %d cases, %d mismatches (translated text: %s)" % (len(expected), bad, path))
+    return 1 if bad else 0
+
+
+# ----------------------------------------------------------------------------------------------
+# development tool: harmless refactorings of `xpath_match` must still translate, and the equality theorems must still
+# hold for the regenerated text (`--refactorings [repo]`; rewrites and restores Gen/XPathMatch.lean)
+# ----------------------------------------------------------------------------------------------
+REFACTORINGS = {
+    "rename-locals": [("xpath_itm_parts", "pat_segs"), ("xpath_parts", "segs"), ("xpath_itm", "pat"), ("part", "seg"), ("for i, ", "for n, "), ("return i + 1", "return n + 1"),
+                      ("for j, ", "for k, "), ("if j >=", "if k >="), ("[-1 - j]", "[-1 - k]")],
+    "elif-chain": [("            if j >= len(xpath_parts):", "            elif j >= len(xpath_parts):"), ("            if part != \"*\" and", "            elif part != \"*\" and")],
+    "len-on-the-left": [("if j >= len(xpath_parts):", "if len(xpath_parts) <= j:")],
+    "strict-comparisons": [("if j >= len(xpath_parts):", "if not j < len(xpath_parts):")],
+    "emptiness-as-equality": [("if not part:", "if part == \"\":")],
+    "emptiness-as-length": [("if not part:", "if len(part) == 0:")],
+    "no-local-for-the-split": [("        xpath_itm_parts = xpath_itm.split(\"/\")\n        for j, part in enumerate(reversed(xpath_itm_parts)):",
+                                "        for j, part in enumerate(reversed(xpath_itm.split(\"/\"))):")],
+    "classes-swapped": [("isinstance(xpath_list, (tuple, list))", "isinstance(xpath_list, (list, tuple))")],
+    "nested-ifs": [("            if part != \"*\" and part.lower() != xpath_parts[-1 - j].lower():  # /*/\n                break",
+                    "            if part != \"*\":\n              if part.lower() != xpath_parts[-1 - j].lower():\n                break")],
+    "star-test-flipped": [("            if part != \"*\" and part.lower() != xpath_parts[-1 - j].lower():  # /*/\n                break",
+                           "            if part == \"*\":\n                continue\n            if part.lower() != xpath_parts[-1 - j].lower():\n                break")],
+    "index-negated-sum": [("xpath_parts[-1 - j]", "xpath_parts[-(j + 1)]")],
+    "index-from-the-length": [("xpath_parts[-1 - j]", "xpath_parts[len(xpath_parts) - 1 - j]")],
+    "locals-for-the-lowered": [("            if part != \"*\" and part.lower() != xpath_parts[-1 - j].lower():  # /*/\n                break",
+                                "            want = part.lower()\n            if part != \"*\" and want != xpath_parts[-1 - j].lower():\n                break")],
+    "result-local": [("        else:\n            return i + 1        # MATCH: matched full", "        else:\n            found = i + 1\n            return found")],
+    "trailing-comma-in-display": [("    if isinstance(xpath_list, str):\n        xpath_list = [xpath_list]", "    if isinstance(xpath_list, str):\n        xpath_list = [xpath_list,]")],
+}
+
+
+def function_span(text, name):
+    i = text.index("def %s(" % name)
+    j = text.index("\n# ***", i)
+    return i, j
+
+
+def lake_props():
+    import subprocess
+
+    p = subprocess.run(["lake", "build", "N0Verif.Props.C10"], cwd=os.path.join(HERE, "lean"), stdout=subprocess.PIPE, stderr=subprocess.STDOUT, text=True)
+    errs = [l[:160] for l in p.stdout.split("\n") if l.startswith("error: N0Verif")]
+    return p.returncode, errs
+
+
+def refactorings(repo):
+    src = read_source(repo)
+    base_text, _ = translate_source(src)
+    i, j = function_span(src, "xpath_match")
+    worst = 0
+    try:
+        for name, pairs in REFACTORINGS.items():
+            body = src[i:j]
+            missing = None
+            for a, b in pairs:
+                if a not in body:
+                    missing = a
+                    break
+                body = body.replace(a, b)
+            if missing is not None:
+                print("%-32s does not apply to this source (%r not found)" % (name, missing[:50]))
+                worst = 1
+                continue
+            new = src[:i] + body + src[j:]
+            try:
+                compile(new, SRC, "exec")
+            except SyntaxError as e:
+                print("%-32s the refactored source does not compile: %s" % (name, e))
+                worst = 1
+                continue
+            # the refactoring must be harmless: same answers as the original on a sample
+            ns0, ns1 = {}, {}
+            exec(compile(src, SRC, "exec"), ns0)
+            exec(compile(new, SRC, "exec"), ns1)
+            sample = [(x, pl) for x in ("", "/a/b", "/A/b[0]/c", "a", "//", "/x/") for pl in ("", "*", "//b", "B", "a/b", "/a/*", "*/*/*", ["zz", "//c"], ("//", ), [], ["x/"], "c/b/a/b")]
+            if any(ns0["xpath_match"](x, pl) != ns1["xpath_match"](x, pl) for x, pl in sample):
+                print("%-32s NOT a harmless refactoring (answers differ on the sample)" % name)
+                worst = 1
+                continue
+            try:
+                lean, _ = translate_source(new)
+            except TranslateError as e:
+                print("%-32s TranslateError: %s" % (name, e))
+                worst = 1
+                continue
+            if lean == base_text:
+                print("%-32s identical Lean text" % name)
+                continue
+            base.write_if_changed(OUT, lean)
+            rc, errs = lake_props()
+            print("%-32s text differs; equality theorems %s %s" % (name, "hold" if rc == 0 else "FAIL", errs[:2]))
+            worst = worst or (1 if rc else 0)
+    finally:
+        base.write_if_changed(OUT, base_text)
+        lake_props()
+    return worst
+
+
+if __name__ == "__main__":
+    import sys
+
+    if "--selftest" in sys.argv:
+        sys.exit(selftest())
+    args = [a for a in sys.argv[1:] if not a.startswith("--")]
+    repo = args[0] if args else os.environ.get("VERIF_REPO", "/repo")
+    if "--refactorings" in sys.argv:
+        sys.exit(refactorings(repo))
+    legend, changed, differs = regenerate(repo)
+    if "--write-baseline" in sys.argv:
+        os.makedirs(os.path.dirname(BASELINE), exist_ok=True)
+        base.write_if_changed(BASELINE, open(OUT, encoding="utf-8").read())
+        differs = False
+    print("generated %s: changed=%s differs_from_baseline=%s" % (os.path.relpath(OUT, HERE), changed, differs))
+    for fn, lg in legend.items():
+        print(" ", fn, lg)
